@@ -628,6 +628,8 @@ class Engine:
                 from .models import any_of
                 g = o.get
                 return any_of(self, o.len, lambda q: self.py_eq(g(q), item, st), "infl")
+            if isinstance(o, HSeq) and o.memfn is not None:
+                return o.memfn(self.key_term(item))
             if isinstance(o, HSeq):
                 # membership as an uninterpreted predicate of the item (sound under binders):
                 #   MEM(x) => c[W(x)] == x in range ;  forall k in range. MEM(c[k])
@@ -646,6 +648,7 @@ class Engine:
                     self.axioms.append(z3.ForAll([k], z3.Implies(z3.And(0 <= k, k < n), MEM(ek))))
                     hit = (MEM, o)
                     self._mem_cache[key] = hit
+                    o.memfn = (lambda t, MEM=MEM: MEM(t))
                 return hit[0](it)
         if isinstance(cont, VTuple):
             return z3.Or([self.py_eq(x, item, st) for x in cont.items] or [z3.BoolVal(False)])
@@ -809,7 +812,7 @@ class Engine:
     def mk_list(self, items, st, numpy=False):
         n = len(items)
         if n == 0:
-            return st.alloc(HSeq(0, lambda k: VInt(0), numpy=numpy, note="empty"))
+            return st.alloc(HSeq(0, lambda k: VInt(0), numpy=numpy, note="empty", memfn=(lambda t: z3.BoolVal(False))))
 
         def get(k, items=items):
             if z3.is_int_value(k) and 0 <= k.as_long() < len(items):
@@ -877,6 +880,8 @@ class Engine:
                 self.oblige(st, "index in range", z3.And(it >= -o.len, it < o.len), "safety", node)
                 if z3.is_int_value(it) and it.as_long() >= 0:
                     return o.get(it)
+                if not st.silent and not self.feasible(st, z3.And(list(st.guards) + [it < 0])):
+                    return o.get(it)          # the index is non-negative on this path: no wrap-around term
                 return o.get(z3.If(it < 0, it + o.len, it))
         raise Unsupported("subscript of %r (line %d)" % (base, node.lineno))
 
@@ -1035,6 +1040,12 @@ class Engine:
         self.ev(v, st)
         return K["next"](st)
 
+    def run_hook(self, hook, st, node):
+        if hook.__code__.co_argcount >= 3:
+            hook(Spec(self, st), st, node)
+        else:
+            hook(Spec(self, st), st)
+
     def ex_Pass(self, node, st, K):
         return K["next"](st)
 
@@ -1053,9 +1064,9 @@ class Engine:
         for tgt in node.targets:
             self.assign(tgt, v, st, node)
             if isinstance(tgt, ast.Name) and self.cur is not None and tgt.id in self.cur.hooks:
-                self.cur.hooks[tgt.id](Spec(self, st), st)
+                self.run_hook(self.cur.hooks[tgt.id], st, node)
             if isinstance(tgt, ast.Subscript) and isinstance(tgt.value, ast.Name) and self.cur is not None and (tgt.value.id + "[]") in self.cur.hooks:
-                self.cur.hooks[tgt.value.id + "[]"](Spec(self, st), st)
+                self.run_hook(self.cur.hooks[tgt.value.id + "[]"], st, node)
         return K["next"](st)
 
     def ex_AugAssign(self, node, st, K):
@@ -1077,6 +1088,8 @@ class Engine:
             return K["next"](st)
         res = self.binop(node.op, cur, v, st, node)
         self.assign(node.target, res, st, node)
+        if isinstance(node.target, ast.Name) and self.cur is not None and node.target.id in self.cur.hooks:
+            self.run_hook(self.cur.hooks[node.target.id], st, node)
         return K["next"](st)
 
     def _load(self, tgt):
